@@ -22,7 +22,7 @@ CLAIMED = {
          "Fault classes enumerated per case: pre-state class per generated path (absent, stale, empty, prefix at char boundary, prefix inside a character, random valid / invalid UTF-8), crash point = scheduler step (seeded, all K), torn-file choice per file written by the interrupted action. Schedules and projects are sampled."),
  "C09": ("exploration", "5.C09", "twin simulated runs (build vs --needed) from an identical checkpointed pre-state under the same schedule seed; inode + mtime-sentinel comparison; twin runs of the real binary from the tree a SIGKILL at a system call left (strace inject)",
          "Pre-states mix up-to-date, stale, missing, torn and non-UTF-8 generated files after source edits and tampering."),
- "C10": ("exploration", "5.C10", "whole-tree snapshot diff (bytes, inode, mtime) around every simulated invocation in all four modes, failing projects and decoys included; the same diff around runs of the real binary in which one system call fails (strace inject)",
+ "C10": ("exploration", "5.C10", "whole-tree snapshot diff (bytes, inode, mtime) around every simulated invocation in all four modes, failing projects and decoys included; the same diff around runs of the real binary in which one system call fails or at which the process is killed (strace inject: errno, SIGKILL)",
          "No schedule occurs in the statement; the simulator contributes the executions (all modes, all verdicts, dirty trees) around which the diff is taken."),
  "C11": ("exploration", "5.C11", "seeded trees x input lists x recursion x base/cwd under seeded schedules of scan and preprocess tasks; oracle = set semantics of input resolution (R-inputs) + README naming rule + whole-tree diff + execution markers",
          "The schedule-dependent part is the coordinator's seen-set under interleaved ScanDir/Preprocess results; naming and classification are checked as a by-product on every generated tree."),
@@ -77,7 +77,7 @@ m = {
     ],
     "checks": checks,
     "not_applicable": [{"property_id": k, "reason": v} for k, v in sorted(NA.items()) if k not in CLAIMED],
-    "notes": "Exit codes of every check: 0 held, 1 VIOLATION line(s) printed, 2 harness error. VERIF_SEED selects the seed (default 20261004). Known findings are listed in /verif/known_findings.json (one known: K1; seven fixed by `fix:` commits in /repo: D1-D7, replays under /verif/findings). The syscall-level cases of C04, C08, C09 and C10 need /usr/bin/strace with ptrace allowed and are skipped with a WARNING otherwise. Seeded property-breaking changes and what catches them: /verif/seeded/<id>/meta.json and DESIGN.md 16.2, 17.5-17.10.",
+    "notes": "Exit codes of every check: 0 held, 1 VIOLATION line(s) printed, 2 harness error. VERIF_SEED selects the seed (default 20261004). Known findings are listed in /verif/known_findings.json (one known: K1; seven fixed by `fix:` commits in /repo: D1-D7, replays under /verif/findings). The syscall-level cases of C04, C08, C09 and C10 need /usr/bin/strace with ptrace allowed and are skipped with a WARNING otherwise. Seeded property-breaking changes and what catches them: /verif/seeded/<id>/meta.json and DESIGN.md 16.2, 17.5-17.10b.",
 }
 json.dump(m, open(os.path.join(HERE, "MANIFEST.json"), "w"), indent=1)
 print("MANIFEST.json written:", len(checks), "checks,", len(m["not_applicable"]), "not applicable")
